@@ -1159,8 +1159,7 @@ class HTMLDocument:
         self, lib_prefix: Optional[str], include_version: bool
     ) -> Tag:
         # Tagify first, so that the decision below is made on what will be rendered (a
-        # tagifiable child may expand to nothing, or to the <html> or <body> tag). This
-        # is also a copy, so the user's objects are not modified.
+        # tagifiable child may expand to nothing, or to the <html> or <body> tag).
         content: TagList = self._content.tagify()
         html: Tag
         body: Tag
@@ -1170,7 +1169,9 @@ class HTMLDocument:
             and isinstance(content[0], Tag)
             and cast(Tag, content[0]).name == "html"
         ):
-            html = cast(Tag, content[0])
+            # Copy the tag before adding the document's attributes to it: it may be an
+            # object that some tagify() method handed out and still holds.
+            html = copy(cast(Tag, content[0]))
             html.attrs.update(**self._html_attr_args)
             html = HTMLDocument._hoist_head_content(html, lib_prefix, include_version)
             return html
